@@ -253,3 +253,30 @@ def replay_case(wd, rec, n1):
     if pa is None or n1 is None:
         return new, None
     return new, split_point(wd, 0, start, list(rec['opts']), rec['total'], n1, rec['fmt'], rec['m128'], pa)
+
+
+def probe_ay48(wd):
+    """Open finding resume:ay-on-48k: trace.py answers the AY ports (register select 0xFFFD, data 0xBFFD, read-back) on a 48K
+    machine too, but a 48K snapshot carries no AY state: select register 3, write 0x55 / save / read it back -> 0 instead of 0x55."""
+    from ..lib import cbuild
+    cbuild.preload()
+    from skoolkit.snapshot import write_snapshot
+    code = [0x01, 0xFD, 0xFF, 0x3E, 0x03, 0xED, 0x79, 0x06, 0xBF, 0x3E, 0x55, 0xED, 0x79, 0x06, 0xFF, 0xED, 0x78,
+            0x32, 0x00, 0x91, 0x18, 0xFE]
+    ram = [0] * 49152
+    ram[0x4000:0x4000 + len(code)] = code
+    sub = os.path.join(wd, 'probe')
+    os.makedirs(sub, exist_ok=True)
+    start = os.path.join(sub, 'ay48.z80')
+    write_snapshot(start, ram, ['pc=32768', 'sp=65000'], ['iff=0', 'tstates=100'], '48K')
+    with open(start, 'rb') as f:
+        startfile = {'name': 'ay48.z80', 'b64': base64.b64encode(f.read()).decode('ascii')}
+    out = []
+    for k, fmt in enumerate(('szx', 'z80')):
+        pa, e = leg_a(start, [], 9, os.path.join(sub, 'a%d.szx' % k))
+        rec = {'key': 'ay48/%s/48' % fmt, 'err': e if pa is None else '', 'opts': [], 'fmt': fmt, 't0': 100, 'kind': 'ay48', 'm128': 0,
+               'total': 9, 'start': start, 'startfile': startfile, 'splits': []}
+        if pa is not None:
+            rec['splits'].append(split_point(sub, k, start, [], 9, 6, fmt, 0, pa))
+        out.append(rec)
+    return out
